@@ -1713,6 +1713,17 @@ func (e *wireExec) byzStep(s *XStep, w *wireTok, env *envelope) {
 	if mustReject && len(acc) > 0 {
 		o.Violate("C10", "malformed-payload-accepted", fmt.Sprintf("%s accepted a correctly signed %s payload with %s", acc[0].dec, kind, desc), map[string]string{"field": f, "how": s.How})
 	}
+	// the same correctly signed envelope in its DAG-JSON form, for the DAG-JSON decoders
+	if n, err := ipld.Decode(data, dagcbor.Decode); err == nil {
+		if js, err := ipld.Encode(n, dagjson.Encode); err == nil {
+			accJ := e.offer(js, "json", offerKind, false, false)
+			o.Eval("C10")
+			o.Sig("C10", kind, f, s.How, s.Kind, "json", len(accJ) > 0)
+			if mustReject && len(accJ) > 0 {
+				o.Violate("C10", "malformed-payload-accepted", fmt.Sprintf("%s accepted the DAG-JSON form of a correctly signed %s payload with %s", accJ[0].dec, kind, desc), map[string]string{"field": f, "how": s.How, "codec": "dag-json"})
+			}
+		}
+	}
 }
 
 // ---- C09: hostile payloads behind a valid signature, hostile lengths, matching
